@@ -7,6 +7,9 @@
 //   links {<hextok>}*           token strings added with TokenList::addtoken, then the real Tokenizer::createLinks();
 //                               output "ok l0 l1 ..." (index of link target or '-'), or "throw <index of the reported token>"
 //   links2 {<hextok>}*          same, but every token is given a stale pre-existing link first (createLinks must clear them)
+//   lnk <n> {m <a> <b> | z <a> -}*   n fresh tokens; m = Token::createMutualLinks(a, b), z = a->link(nullptr);
+//                               output: the link vector after every op, "l0,l1,... | l0,l1,..."
+//   num <signed decimal>        std::to_string(static_cast<long long>(v))
 //   toxml <hex>                 hex(ErrorLogger::toxml(s))
 //   id <decimal>                id_string_i(n)
 #include "common.h"
@@ -107,6 +110,28 @@ static std::string runLinks(const std::vector<std::string>& f, bool stale) {
     return out;
 }
 
+static std::string runLnk(const std::vector<std::string>& f) {
+    Settings settings;
+    TokenList list{settings, Standards::Language::CPP};
+    const int n = std::stoi(f[1]);
+    std::vector<Token*> v;
+    std::map<const Token*, int> m;
+    for (int i = 0; i < n; ++i) {
+        list.addtoken("t" + std::to_string(i), 1, i + 1, 0);
+        v.push_back(list.back());
+        m[list.back()] = i;
+    }
+    std::string out;
+    for (size_t k = 2; k + 2 < f.size(); k += 3) {
+        if (f[k] == "m") Token::createMutualLinks(v.at(std::stoi(f[k + 1])), v.at(std::stoi(f[k + 2])));
+        else if (f[k] == "z") v.at(std::stoi(f[k + 1]))->link(nullptr);
+        else return "bad-op";
+        if (!out.empty()) out += " | ";
+        for (size_t i = 0; i < v.size(); ++i) out += (i ? "," : "") + ix(m, v[i]->link());
+    }
+    return out.empty() ? "-" : out;
+}
+
 int main() {
     std::string line;
     while (std::getline(std::cin, line)) {
@@ -116,6 +141,8 @@ int main() {
             if (f.size() >= 2 && f[0] == "ast" && (f.size() - 2) % 3 == 0) out = runAst(f);
             else if (!f.empty() && f[0] == "links") out = runLinks(f, false);
             else if (!f.empty() && f[0] == "links2") out = runLinks(f, true);
+            else if (f.size() >= 2 && f[0] == "lnk" && (f.size() - 2) % 3 == 0) out = runLnk(f);
+            else if (f.size() == 2 && f[0] == "num") out = std::to_string(static_cast<long long>(std::stoll(f[1])));
             else if (f.size() == 2 && f[0] == "toxml") out = hex(ErrorLogger::toxml(unhex(f[1])));
             else if (f.size() == 2 && f[0] == "id") out = id_string_i(static_cast<std::uintptr_t>(std::stoull(f[1])));
         } catch (const std::exception& e) {
